@@ -58,6 +58,7 @@ type ExploreStats struct {
 	MaxChoices     int            `json:"max_choices"`
 	BoundCompleted int            `json:"bound_completed"`
 	Exhaustive     bool           `json:"exhaustive"`
+	CapHit         bool           `json:"cap_hit,omitempty"` // MaxExecs (not the deadline) ended the exploration
 	Signatures     int            `json:"signatures"`
 	Outcomes       map[string]int `json:"outcomes"`
 	ByDeviations   []int          `json:"by_deviations"`
@@ -168,6 +169,7 @@ func Explore(cfg ExploreCfg, body func()) *ExploreStats {
 			return true
 		}
 		if cfg.MaxExecs > 0 && st.Execs >= cfg.MaxExecs {
+			st.CapHit = true
 			return true
 		}
 		return !cfg.Deadline.IsZero() && time.Now().After(cfg.Deadline)
